@@ -84,14 +84,33 @@ class Case:
         c.defs = list(s.defs)
         return c
 
+    def __getstate__(s):
+        return s.__dict__
+
     def fresh(s, name, lo, hi):
         s.n += 1
         v = '%s%d' % (name, s.n)
         s.box[v] = (lo, hi)
         return v
 
+    def _pinned_cons(s):
+        pins = {x: Poly.const(l) for x, (l, h) in s.box.items() if l == h}
+        key = (len(s.cons), tuple(sorted(pins)))
+        if getattr(s, '_pc_key', None) != key:
+            out = []
+            for q, op in s.cons:
+                if pins and (q.vars() & set(pins)):
+                    q = q.subst({x: pins[x] for x in q.vars() if x in pins})
+                out.append((q, op))
+            s._pc = out
+            s._pc_key = key
+        return s._pc
+
     def _direct(s, p, lo=None, hi=None):
         """interval of p: box evaluation refined by constraints of the form +-p + const"""
+        pins = {x: Poly.const(l_) for x, (l_, h_) in s.box.items() if l_ == h_ and x in p.vars()}
+        if pins:
+            p = p.subst(pins)
         l, h = p.rng(s.box)
         if lo is not None:
             l = max(l, lo)
@@ -100,7 +119,7 @@ class Case:
         if p.isconst():
             return l, h
         np_ = len(p.d)
-        for q, op in s.cons:
+        for q, op in s._pinned_cons():
             nq = len(q.d)
             if nq > np_ + 1 or nq < np_ - 1:
                 continue
@@ -126,7 +145,7 @@ class Case:
         if len(p.d) < 3:
             return l, h
         seen = set()
-        for q, op in s.cons:
+        for q, op in s._pinned_cons():
             L = Poly({m: c for m, c in q.d.items() if m != ()}, True)
             if len(L.d) < 2 or len(L.d) >= len(p.d):
                 continue
@@ -201,6 +220,97 @@ class Case:
             if not changed:
                 break
         return True
+
+    def fm_infeasible(s, limit=4000):
+        """polyhedral emptiness: Fourier-Motzkin elimination over the linear constraints and the symbol boxes, with
+        integer tightening (coefficients divided by their gcd, constant floored).  Non-linear constraints are left out
+        (a relaxation), so True is a sound 'no integer point satisfies the case'; False says nothing."""
+        from math import gcd
+        rows = {}
+
+        def add(coef, k):
+            coef = {x: c for x, c in coef.items() if c}
+            if not coef:
+                return k >= 0
+            g = 0
+            for c in coef.values():
+                g = gcd(g, abs(c))
+            if g > 1:
+                coef = {x: c // g for x, c in coef.items()}
+                k = k // g                     # floor: sum(c_i x_i) >= -k/g and the left side is an integer
+            key = tuple(sorted(coef.items(), key=lambda kv: (str(kv[0]), kv[1])))
+            old = rows.get(key)
+            if old is None or k < old:
+                rows[key] = k
+            return True
+        pins = {x: l for x, (l, h) in s.box.items() if l == h}
+        used = set()
+        mono = {}
+        for q, op in s.cons:
+            if pins and (q.vars() & set(pins)):
+                q = q.subst({x: Poly.const(pins[x]) for x in q.vars() if x in pins})
+            coef = {}
+            k = 0
+            for m, c in q.d.items():
+                if m == ():
+                    k += c
+                elif len(m) == 1 and m[0][1] == 1:
+                    coef[m[0][0]] = coef.get(m[0][0], 0) + c
+                else:
+                    # a non-linear monomial is abstracted by an opaque symbol ranging over the monomial's interval
+                    # (its relation to its factors is forgotten: a relaxation)
+                    nm = mono.get(m)
+                    if nm is None:
+                        nm = mono[m] = ('mono', m)
+                    coef[nm] = coef.get(nm, 0) + c
+            if op == '<0':
+                coef = {x: -c for x, c in coef.items()}
+                k = -k - 1
+            used |= set(coef)
+            if not add(coef, k):
+                return True
+        for x in used:
+            if isinstance(x, tuple):
+                l, h = Poly({x[1]: 1}).rng(s.box)
+            else:
+                l, h = s.box[x]
+            add({x: 1}, -l)
+            add({x: -1}, h)
+        while True:
+            vs = {}
+            for key in rows:
+                for x, c in key:
+                    a = vs.setdefault(x, [0, 0])
+                    a[0 if c > 0 else 1] += 1
+            if not vs:
+                return False
+            x = min(vs, key=lambda v: vs[v][0] * vs[v][1] - vs[v][0] - vs[v][1])
+            pos, neg, rest = [], [], {}
+            for key, k in rows.items():
+                d = dict(key)
+                c = d.get(x)
+                if c is None:
+                    rest[key] = k
+                elif c > 0:
+                    pos.append((d, k, c))
+                else:
+                    neg.append((d, k, -c))
+            if len(pos) * len(neg) + len(rest) > limit:
+                return False
+            rows = rest
+            for dp, kp, cp in pos:
+                for dn, kn, cn in neg:
+                    g = gcd(cp, cn)
+                    mp, mn = cn // g, cp // g
+                    coef = {}
+                    for y, c in dp.items():
+                        if y != x:
+                            coef[y] = coef.get(y, 0) + c * mp
+                    for y, c in dn.items():
+                        if y != x:
+                            coef[y] = coef.get(y, 0) + c * mn
+                    if not add(coef, kp * mp + kn * mn):
+                        return True
 
     def feasible(s):
         if not s.tighten():
@@ -367,6 +477,19 @@ def decide_gt(c, x, y, depth=2):
                         return [(c, False)]
                     if sgn == -1 and beta + 1 > 0:
                         return [(c, True)]
+    small = [v for v in sorted(d.vars()) if 0 < c.box[v][1] - c.box[v][0] <= 2]
+    if small:
+        # carry / borrow bits: enumerate their values (cheap, and it pins them for the final identity)
+        v = small[0]
+        l, h = c.box[v]
+        res = []
+        for val in range(l, h + 1):
+            cc = c.copy()
+            cc.box[v] = (val, val)
+            if not cc.feasible():
+                continue
+            res += decide_gt(cc, x, y, depth)
+        return res
     if depth > 0:
         for v in sorted(d.vars(), key=lambda v: -(c.box[v][1] - c.box[v][0])):
             l, h = c.box[v]
@@ -531,6 +654,9 @@ class KInterp:
         if ty[0] == 'i':
             v = st.mem.get(p)
             if v is None:
+                g = s.gconst.get((p.obj, p.off))
+                if g is not None:
+                    return const(g & ((1 << ty[1]) - 1), ty[1])
                 raise Undecided('load of uninitialised %s' % (p,))
             return v
         raise Undecided('load of type %r' % (ty,))
@@ -789,8 +915,16 @@ class KInterp:
             i = s.val(st, ins.a[1], ('i', 64)).cval()
             st.env[dst] = v[i]
             return
-        if op == 'extractvalue' or op == 'insertvalue':
-            raise Undecided('aggregate value in a kernel')
+        if op == 'extractvalue':
+            v = s.val(st, ins.a[0], ins.ty)
+            for i in ins.x:
+                if not isinstance(v, list):
+                    raise Undecided('extractvalue of %r' % (v,))
+                v = v[i]
+            st.env[dst] = v
+            return
+        if op == 'insertvalue':
+            raise Undecided('aggregate construction in a kernel')
         if op == 'unreachable':
             raise Undecided('unreachable reached')
         raise Undecided('instruction %s' % ins.text.strip()[:100])
@@ -1123,6 +1257,9 @@ class KInterp:
     def do_call(s, st, ins, fn):
         cal = ins.a[0]
         if cal[0] == 'asm':
+            if getattr(s, 'asm_dialect', 'x86') == 'ptx':
+                from . import ptx
+                return ptx.do_asm(s, st, ins)
             from . import x86
             return x86.do_asm(s, st, ins)
         if cal[0] != 'g':
@@ -1138,6 +1275,27 @@ class KInterp:
             opn = 'lshr' if m.group(2) == 'r' else 'shl'
             k64 = const(k.cval(), 64)
             return s.vmap(st, ins.dst, [v], lambda case, x: s._shift1(case, opn, x, k64), len(v))
+        if name.startswith('llvm.memcpy.'):
+            dstp, srcp, n = args[0], args[1], args[2]
+            if not (isinstance(dstp, KPtr) and isinstance(srcp, KPtr) and isinstance(n, KV) and n.isconst()):
+                raise Undecided('memcpy with a symbolic operand in a kernel')
+            nb = n.cval()
+            # whole tracked cells only: every cell of the source range is copied, cells of the destination range are replaced
+            cells = {}
+            for k, v in st.mem.items():
+                if isinstance(k, KPtr) and k.obj == srcp.obj and srcp.off <= k.off < srcp.off + nb:
+                    cells[k.off - srcp.off] = v
+            for off in range(0, nb, 4):
+                g = s.gconst.get((srcp.obj, srcp.off + off))
+                if off not in cells and g is not None:
+                    cells[off] = const(g)
+            if not cells:
+                raise Undecided('memcpy from a range with no tracked cell')
+            for k in [k for k in st.mem if isinstance(k, KPtr) and k.obj == dstp.obj and dstp.off <= k.off < dstp.off + nb]:
+                del st.mem[k]
+            for off, v in cells.items():
+                st.mem[KPtr(dstp.obj, dstp.off + off)] = v
+            return
         if name in s.mod.funcs or name in s.summ:
             s.callsites.append((fn.name, name, ins.dbg))
             outs = s.run_fn(st, name, args)
@@ -1199,7 +1357,7 @@ def final_poly(case, p, exact=False):
     return z if exact else z.modp()
 
 
-def witness_search(case, diff, seed=0, tries=600, exact=False):
+def witness_search(case, diff, seed=0, tries=600, exact=False, pred=None):
     """a concrete assignment of the cell's input symbols (derived symbols recomputed from their definitions) that
     satisfies all of the cell's constraints and on which diff != 0 (mod p); None if none was found"""
     import random
@@ -1248,6 +1406,10 @@ def witness_search(case, diff, seed=0, tries=600, exact=False):
                     ok = False
                     break
             if not ok:
+                continue
+            if pred is not None:
+                if pred(a):
+                    return {x: a[x] for x in free}
                 continue
             v = diff.ev(a)
             if (v != 0) if exact else (v % P != 0):
